@@ -460,10 +460,22 @@ def fan_programs(rng, n):
     """C09: split / route / merge / zip combined with shuffles (diamonds), per-branch sinks."""
     out = []
     for i in range(n):
-        t = i % 6
+        t = i % 7
         nodes = []
         ordered = set()
-        if t == 0:      # split n -> per branch sink
+        if t == 6:      # zip behind blocks with a LIMITED replication requirement (zip must still gather on one replica);
+            # the two sides are spread differently over the replicas (contiguous chunks, different filters)
+            hi = rng.choice([60, 100, 160])
+            lim = rng.choice(["limited:8", "limited:16"])   # not "host": forward n -> fewer-but-several is finding F2
+            nodes = [{"id": "a", "op": "src", "kind": "par_range", "lo": 0, "hi": hi},
+                     {"id": "b", "op": "src", "kind": "par_range", "lo": 0, "hi": hi},
+                     {"id": "af", "op": "filter", "p": rng.choice(["lt50", "odd", "ge5"]), "in": ["a"]},
+                     {"id": "bf", "op": "filter", "p": rng.choice(["ge5", "even", "ne3"]), "in": ["b"]},
+                     {"id": "ar", "op": "replicate", "repl": lim, "in": ["af"]},
+                     {"id": "br", "op": "replicate", "repl": lim, "in": ["bf"]},
+                     {"id": "z", "op": "zip", "in": ["ar", "br"]},
+                     {"id": "k", "op": "sink", "kind": "collect_count", "in": ["z"]}]
+        elif t == 0:      # split n -> per branch sink
             nb = rng.choice([1, 2, 3, 4])
             nodes = [_src(rng, "s"), {"id": "sp", "op": "split", "n": nb, "in": ["s"]}]
             for b in range(nb):
